@@ -70,15 +70,16 @@ class ClaytonGroundedAndMargins(Lemma):
     """Clayton: F = 0 when an argument is 0; every one-dimensional margin (real `margin` helper, other arguments summed
     over +-inf with their signs) is the identity, d = 2, 3, either sign of the remaining argument"""
     prop = "C11"
-    cases = tuple((d, i, s) for d in (2, 3) for i in range(d) for s in (+1, -1))
+    cases = tuple((d, i, s) for d in (2, 3) for i in range(d) for s in (+1, -1)) + ((2, 0, +1, "parameters reassigned"), (2, 1, -1, "parameters reassigned"), (3, 1, +1, "parameters reassigned"))
 
     def __init__(self):
         self.name = "property:clayton-grounded-and-margins"
 
     def prove(self, vc, case):
-        d, i, s = case
-        nm = f"{self.name}[d={d},margin={i},{'+' if s > 0 else '-'}]"
-        cop, theta, eta = clayton(vc)
+        d, i, s = case[:3]
+        re_ = len(case) > 3
+        nm = f"{self.name}[d={d},margin={i},{'+' if s > 0 else '-'}{',parameters reassigned after construction' if re_ else ''}]"
+        cop, theta, eta = clayton(vc, reassigned=re_)
         (u,), (mag,) = signed_args(vc, [s])
         it = vc.interp
         # grounded: zero at coordinate i, anything elsewhere
@@ -92,8 +93,12 @@ class ClaytonGroundedAndMargins(Lemma):
     def replay(self, model, clause, case):
         from rpylib.distribution.levycopula import ClaytonCopula
         from rpylib.model.levycopulamodel import margin
-        d, i, s = case
-        c = ClaytonCopula(theta=0.7, eta=0.3)
+        d, i, s = case[:3]
+        if len(case) > 3:
+            c = ClaytonCopula(theta=2.5, eta=0.8)
+            c.theta, c.eta = 0.7, 0.3
+        else:
+            c = ClaytonCopula(theta=0.7, eta=0.3)
         u = s * 1.3
         got = margin(c, [i], d)(np.array([u]))
         z = np.array([0.0 if k == i else 0.4 * (k + 1) for k in range(d)])
